@@ -381,7 +381,7 @@ def r11(ctx):
             sl = backslice(task, [t['op']])
             if sl.has_call(r'^file::FileId::new$|FileMetadata::new$|^std::fs::(metadata|symlink_metadata)$|Path::exists$|try_exists$'):
                 ok = True
-    ctx.check(ok, rule, task.path + '|file-level-failure-not-retried', rm[0].where(), 'the next path of a file is tried only when the failed path no longer leads to that file',
+    ctx.advise(ok, rule, task.path + '|file-level-failure-not-retried', rm[0].where(), 'the next path of a file is tried only when the failed path no longer leads to that file',
               'when the hash of fg[0] cannot be computed, fg[0] is removed and the next hard link is tried, whatever the failure was: "file length changed since the file was scanned", a read error, '
               'a file mode that forbids reading are properties of the inode, so every one of the N paths reads the whole file again and fails the same way - a 64 MiB file with 8 hard links that '
               'was appended to costs 640 MiB of reads and 9 identical warnings')
